@@ -180,6 +180,7 @@ def world_canon(w, extra=None, with_db=True) -> tuple:
             'up', schd.is_paused, None if sm is None else sm.name,
             schd.is_stalled, bool(schd.is_updated),
             bool(schd.reload_pending), bool(schd.is_reloaded),
+            bool(getattr(schd, 'is_restart_timeout_wait', False)),
             _due('stopclock', getattr(schd, 'stop_clock_time', None)),
             schd.flow_mgr.counter, tuple(sorted(schd.flow_mgr.flows)),
             tuple(sorted(xm.sat_xtrig)), tuple(sorted(xm.active)),
